@@ -3,6 +3,7 @@ package main
 import (
 	"fmt"
 	"sort"
+	"strings"
 
 	sdkmath "cosmossdk.io/math"
 	sdk "github.com/cosmos/cosmos-sdk/types"
@@ -50,6 +51,16 @@ func (m *monC03) OnStep(r *Runner, st *Step) {
 			if !ok {
 				have = sdkmath.LegacyZeroDec()
 			}
+			if !have.Equal(c.Amount) && r.StrandedVals[v] {
+				// the validator was removed by x/staking while it carried alliance delegations and created again:
+				// the new record starts empty, the old delegations are still there (open finding)
+				broken = true
+				r.Violate("C03.a", "delegator-share-sum:validator-removed-by-staking", fmt.Sprintf("validator %s denom %s: delegations sum to %s, recorded total %s", short(v), c.Denom, have, c.Amount))
+				if r.failed() {
+					return
+				}
+				continue
+			}
 			if !have.Equal(c.Amount) {
 				broken = true
 				r.Violate("C03.a", "delegator-share-sum:"+st.Kind+":"+stepOpKind(st), fmt.Sprintf("validator %s denom %s: delegations sum to %s, recorded total %s (diff %s)", short(v), c.Denom, have, c.Amount, have.Sub(c.Amount)))
@@ -69,6 +80,14 @@ func (m *monC03) OnStep(r *Runner, st *Step) {
 	}
 	sort.Strings(sk)
 	for _, k := range sk {
+		if !seen[k] && !sum[k].IsZero() && r.StrandedVals[k[:strings.Index(k, "|")]] {
+			broken = true
+			r.Violate("C03.a", "delegations-without-total:validator-removed-by-staking", fmt.Sprintf("%s: delegations sum to %s but the validator's record was deleted when x/staking removed the validator", k, sum[k]))
+			if r.failed() {
+				return
+			}
+			continue
+		}
 		if !seen[k] && !sum[k].IsZero() {
 			broken = true
 			r.Violate("C03.a", "delegations-without-total:"+st.Kind+":"+stepOpKind(st), fmt.Sprintf("%s: delegations sum to %s but the validator records no delegator-share total", k, sum[k]))
@@ -96,6 +115,15 @@ func (m *monC03) OnStep(r *Runner, st *Step) {
 		have, ok := vsum[d]
 		if !ok {
 			have = sdkmath.LegacyZeroDec()
+		}
+		if !have.Equal(a.TotalValidatorShares) && r.StrandedDenoms[d] {
+			// the asset's total still counts the shares of the validator record that was deleted
+			broken = true
+			r.Violate("C03.b", "validator-share-sum:validator-removed-by-staking", fmt.Sprintf("asset %s: validators' shares sum to %s, recorded total %s (diff %s)", d, have, a.TotalValidatorShares, have.Sub(a.TotalValidatorShares)))
+			if r.failed() {
+				return
+			}
+			continue
 		}
 		if !have.Equal(a.TotalValidatorShares) {
 			broken = true
